@@ -276,7 +276,60 @@ inline model::MLib oas_model(Rng& r, int max_cells = 5, int max_elems = 8) {
     cfg.simple_polys_only = true;
     cfg.dangling = r.chance(0.3);
     cfg.force_ongrid = true;
-    return oasify(gen::library(r, cfg));
+    model::MLib m = oasify(gen::library(r, cfg));
+    // near-copies placed right behind their original: the same layer, shape, text, target, repetition
+    // and properties in consecutive records is what makes modal reuse (and repetition type 0) possible
+    for (auto& c : m.cells) {
+        auto shift = [&](model::Pt& p, model::dg_t dx, model::dg_t dy) {
+            p.x += dx;
+            p.y += dy;
+        };
+        std::vector<model::MPoly> polys;
+        for (auto& p : c.polys) {
+            polys.push_back(p);
+            if (r.chance(0.25) && p.pts.size() < 100) {
+                model::MPoly q = p;
+                model::dg_t dx = (model::dg_t)r.range(-50, 50) * 10, dy = r.chance(0.3) ? 0 : (model::dg_t)r.range(-50, 50) * 10;
+                for (auto& v : q.pts) shift(v, dx, dy);
+                shift(q.ccenter, dx, dy);
+                if (r.chance(0.3)) q.layer += 1;
+                polys.push_back(q);
+            }
+        }
+        c.polys.swap(polys);
+        std::vector<model::MPath> paths;
+        for (auto& p : c.paths) {
+            paths.push_back(p);
+            if (r.chance(0.25)) {
+                model::MPath q = p;
+                model::dg_t dx = (model::dg_t)r.range(-50, 50) * 10, dy = (model::dg_t)r.range(-50, 50) * 10;
+                for (auto& v : q.spine) shift(v, dx, dy);
+                paths.push_back(q);
+            }
+        }
+        c.paths.swap(paths);
+        std::vector<model::MLabel> labels;
+        for (auto& l : c.labels) {
+            labels.push_back(l);
+            if (r.chance(0.3)) {
+                model::MLabel q = l;
+                shift(q.origin, (model::dg_t)r.range(-50, 50) * 10, r.chance(0.5) ? 0 : (model::dg_t)r.range(-50, 50) * 10);
+                labels.push_back(q);
+            }
+        }
+        c.labels.swap(labels);
+        std::vector<model::MRef> refs;
+        for (auto& f : c.refs) {
+            refs.push_back(f);
+            if (r.chance(0.3)) {
+                model::MRef q = f;
+                shift(q.origin, r.chance(0.5) ? 0 : (model::dg_t)r.range(-50, 50) * 10, (model::dg_t)r.range(-50, 50) * 10);
+                refs.push_back(q);
+            }
+        }
+        c.refs.swap(refs);
+    }
+    return m;
 }
 
 // ------------------------------------------------------------------------------------------- C18
